@@ -36,18 +36,42 @@ def g_side_effect_formula(self, w):
   if not c1 or not c2:
     return None
   a, b = self.rng.choice(c1), self.rng.choice(c2)
-  return ["AddColumn", t["tableId"], self.new_name(),
-          {"type": "Any", "isFormula": True, "formula": "%s.lookupOrAddDerived(%s=$%s).id" % (t2["tableId"], b["colId"], a["colId"])}]
+  f = "%s.lookupOrAddDerived(%s=$%s).id" % (t2["tableId"], b["colId"], a["colId"])
+  if self.rng.random() < 0.5:
+    # trigger formula: evaluated for new records only, so after $a is edited the derived record is
+    # missing and a read-only evaluation of the cell really performs (and must revert) the addition
+    return ["AddColumn", t["tableId"], self.new_name(), {"type": "Any", "isFormula": False, "formula": f, "recalcWhen": 0}]
+  return ["AddColumn", t["tableId"], self.new_name(), {"type": "Any", "isFormula": True, "formula": f}]
 
 
 def install(h, cfg):
   from gx.gen_hist import Gen
-  if not hasattr(Gen, "g_side_effect_formula"):
-    Gen.g_side_effect_formula = g_side_effect_formula
+  Gen.g_side_effect_formula = g_side_effect_formula     # gen_hist.py only has a stub
   h.extra_oracles.append(probe)
 
 
+_reverts = [0]
+
+
+def _count_reverts():
+  """Count read-only evaluations whose side effects were really reverted (non-vacuity of the probe)."""
+  import engine as engine_mod
+  E = engine_mod.Engine
+  if getattr(E, "_c29_counted", False):
+    return
+  orig = E._undo_to_checkpoint
+
+  def _undo_to_checkpoint(self, checkpoint):
+    if self._get_undo_checkpoint() != checkpoint:
+      _reverts[0] += 1
+    return orig(self, checkpoint)
+  E._undo_to_checkpoint = _undo_to_checkpoint
+  E._c29_counted = True
+
+
 def probe(h, rec):
+  _count_reverts()
+  reverts0 = _reverts[0]
   from gx import engine_driver as ed
   from gx.gen_hist import World
   import formula_prompt
@@ -65,6 +89,7 @@ def probe(h, rec):
                        "autocomplete", "find_col", "formula_error", "evaluate"])
     row = rng.choice(t["rows"] + [t["rows"][-1] + 1 if t["rows"] else 1, 0]) if True else 0
     fcols = [c for c in cols if c["formula"]]
+    secols = [c for c in fcols if "lookupOrAddDerived" in c["formula"]]
     try:
       if kind == "fetch_table":
         calls.append(kind); eng.fetch_table(tid, formulas=rng.random() < 0.7)
@@ -74,10 +99,10 @@ def probe(h, rec):
       elif kind == "fetch_meta":
         calls.append(kind); eng.fetch_meta_tables(formulas=rng.random() < 0.5)
       elif kind == "formula_error" and fcols:
-        c = rng.choice(fcols)
+        c = rng.choice(secols if secols and rng.random() < 0.6 else fcols)
         calls.append("%s %s.%s[%s]" % (kind, tid, c["colId"], row)); eng.get_formula_error(tid, c["colId"], row)
       elif kind == "evaluate" and fcols:
-        c = rng.choice(fcols)
+        c = rng.choice(secols if secols and rng.random() < 0.6 else fcols)
         calls.append("%s %s.%s[%s]" % (kind, tid, c["colId"], row)); formula_prompt.evaluate_formula(eng, tid, c["colId"], row)
       elif kind == "prompt" and cols:
         c = rng.choice(cols)
@@ -92,6 +117,7 @@ def probe(h, rec):
       # the property is about the document, not about the call succeeding
       h.stats["probe_exceptions"] = h.stats.get("probe_exceptions", 0) + 1
   h.stats["probes"] = h.stats.get("probes", 0) + len(calls)
+  h.stats["probe_reverts"] = h.stats.get("probe_reverts", 0) + (_reverts[0] - reverts0)
   after = doc.snapshot()
   d = ed.diff_snapshots(rec["after"], after)
   if d:
@@ -118,6 +144,7 @@ def run(ck):
   merged = _hist.run_histories(ck, CFG, n_quick=14, n_thorough=1000)
   ck.extra["read_only_calls"] = merged["stats"].get("probes", 0)
   ck.extra["calls_that_raised"] = merged["stats"].get("probe_exceptions", 0)
+  ck.extra["calls_whose_side_effects_were_reverted"] = merged["stats"].get("probe_reverts", 0)
   _hist.report(ck, merged, PROP, ())
 
 
